@@ -11,7 +11,7 @@ Not decided: ordering of late connection-closed notifications.
 import ast
 
 from ..model import self_attr, unparse, walk_body_shallow
-from .util import (call_name, call_recv, calls_in, need, node_assign_value, norm, real_suspension, registrations, where)
+from .util import (bootstrap_names, call_name, call_recv, calls_in, need, node_assign_value, norm, real_suspension, registrations, where)
 
 TECHNIQUE = "poison-first dominance, aggregate construction def-use, call-graph dominance of the closing test, " \
             "check-after-yield (G-YIELD)"
@@ -35,7 +35,15 @@ def _entry_checks_closing(ctx, f):
     if not first:
         return False
     n = cf.nodes[first[0]]
-    while n.kind == "stmt" and isinstance(n.stmt, ast.Expr) and isinstance(n.stmt.value, ast.Constant):  # docstring
+
+    def harmless(x):
+        st = x.stmt
+        if x.kind != "stmt":
+            return False
+        if isinstance(st, ast.Pass) or (isinstance(st, ast.Expr) and isinstance(st.value, ast.Constant)):
+            return True
+        return isinstance(st, ast.Expr) and isinstance(st.value, ast.Call) and (call_recv(st.value) or "").split(".")[0] in ("log", "logging")
+    while harmless(n):  # docstring, logging
         n = cf.nodes[[t for t, lab in cf.succ[n.id] if lab is None][0]]
     if n.kind == "test" and norm(n.stmt.test) == "self._closing":
         arm = cf.reach([t for t, lab in cf.succ[n.id] if lab and lab[0] == "cond" and lab[2]])
@@ -117,7 +125,8 @@ def run(ctx):
         for n in cff.nodes:
             for c in n.calls():
                 nm, rc = call_name(c), call_recv(c) or ""
-                if nm == "_make_request_to_broker" or (nm == "connect" and rc in ("ep", "endpoint")) or (nm == "request" and rc == "protocol") \
+                epv, prv = bootstrap_names(f)
+                if nm == "_make_request_to_broker" or (nm == "connect" and rc == epv and epv) or (nm == "request" and rc == prv and prv) \
                         or nm == "_send_bootstrap_request" or nm == "makeRequest":
                     sites.append((f, cff, n, c))
     need(len(sites) >= 5, "I/O sites not found")
@@ -155,8 +164,9 @@ def run(ctx):
         for n in cff.nodes:
             for c in n.calls():
                 nm, rc = call_name(c), call_recv(c) or ""
-                io = nm in ("_make_request_to_broker", "_send_bootstrap_request") or (nm == "connect" and rc in ("ep", "endpoint")) or (
-                    nm == "request" and rc == "protocol")
+                epv, prv = bootstrap_names(f)
+                io = nm in ("_make_request_to_broker", "_send_bootstrap_request") or (nm == "connect" and rc == epv and epv) or (
+                    nm == "request" and rc == prv and prv)
                 if not io:
                     continue
                 after = [s for s in real if n.id in cff.reach([s.id])]
